@@ -53,10 +53,14 @@ type State struct {
 	heap  map[string]string
 	ep    *epoch
 	wm    string
+	// snap: values of registers defined inside an unrolled loop, as they
+	// were when this state left the loop (different iterations leave with
+	// different values; they are merged where the exit edges join).
+	snap map[ssa.Value]Val
 }
 
 func (s *State) clone() *State {
-	n := &State{guard: s.guard, heap: make(map[string]string, len(s.heap)), ep: s.ep, wm: s.wm}
+	n := &State{guard: s.guard, heap: make(map[string]string, len(s.heap)), ep: s.ep, wm: s.wm, snap: s.snap}
 	for k, v := range s.heap {
 		n.heap[k] = v
 	}
@@ -100,6 +104,9 @@ type FnCtx struct {
 	decOf     map[string]string
 	fnFacts   map[string]bool
 	replayParams []replayParam
+	resultVals   []Val
+	atoms        map[string]string
+	bounded      int // > 0: bounded stand-in run, loops explored up to this many iterations
 }
 
 type frame struct {
@@ -370,6 +377,11 @@ type leafKey struct {
 func leafKeysOf(root types.Type, path []int, t types.Type, out *[]leafKey) {
 	switch u := t.Underlying().(type) {
 	case *types.Struct:
+		if len(path) > 0 {
+			// a struct-typed field is an object of its own (subref)
+			*out = append(*out, leafKey{key: heapKey(root, path), typ: t, path: path, array: true})
+			return
+		}
 		for i := 0; i < u.NumFields(); i++ {
 			p := append(append([]int{}, path...), i)
 			leafKeysOf(root, p, u.Field(i).Type(), out)
@@ -406,6 +418,10 @@ func (c *FnCtx) fieldAddr(p Val, k int, resT types.Type) Val {
 	path := append(append([]int{}, p.Path...), k)
 	if at, ok := ft.Underlying().(*types.Array); ok {
 		return Val{K: kPtr, T: resT, Ref: sx("subref", p.Ref, p.Idx, c.pathID(p.Root, path)), Idx: "0", Root: at.Elem()}
+	}
+	if _, ok := ft.Underlying().(*types.Struct); ok {
+		// a struct stored by value in a field is an object of its own
+		return Val{K: kPtr, T: resT, Ref: sx("subref", p.Ref, p.Idx, c.pathID(p.Root, path)), Idx: "0", Root: ft}
 	}
 	return Val{K: kPtr, T: resT, Ref: p.Ref, Idx: p.Idx, Root: p.Root, Path: path}
 }
@@ -480,6 +496,13 @@ func (c *FnCtx) assumeWellTyped(st *State, v Val) {
 		}
 	case kSlice:
 		c.assume(st, and(sx("<=", "0", v.Off), sx("<=", "0", v.Len), sx("<=", v.Len, v.Cap), sx("<=", v.Cap, "281474976710656"), sx("<", v.Ref, st.wm)))
+		if c.eng.usesAddr || c.fn.Pkg != nil && strings.HasSuffix(c.fn.Pkg.Pkg.Path(), "internal/alias") {
+			esz := int64(1)
+			if v.Root != nil && kindOf(v.Root) != kStruct {
+				esz = c.eng.sizeof(v.Root)
+			}
+			c.assume(st, sx("<=", mul(add(v.Off, v.Cap), num(esz)), sx("objsize", v.Ref)))
+		}
 	case kPtr:
 		c.assume(st, sx("<", v.Ref, st.wm))
 	case kStr:
